@@ -42,6 +42,10 @@ func (e *Expr2) Text() string {
 		return "(" + e.L.Text() + ") as " + e.Name
 	case "index":
 		return fmt.Sprintf("%s[%d]", e.Name, e.Index)
+	case "switch":
+		// not an expression text: the model builder turns it into a !switch computed field over the
+		// union field Name whose cases (in the order given by Lit) each return their variable
+		return "!switch " + e.Name + " " + e.Lit
 	case "size":
 		return "size(" + e.Name + ")"
 	case "bin":
@@ -104,7 +108,7 @@ func (e *Expr2) IsIntTyped() bool {
 	switch e.Kind {
 	case "field", "index":
 		return model.IsIntPrim(e.Prim)
-	case "int", "size":
+	case "int", "size", "switch":
 		return true
 	case "float":
 		return false
@@ -197,6 +201,9 @@ func (e *Expr2) eval(fields map[string]*big.Rat, vecs map[string][]*big.Rat) Eva
 	switch e.Kind {
 	case "field":
 		return EvalResult{Val: fields[e.Name]}
+	case "switch":
+		// the value held by the union field, whichever case holds it
+		return EvalResult{Val: fields["#"+e.Name]}
 	case "int":
 		r, _ := new(big.Rat).SetString(e.Lit)
 		return EvalResult{Val: r}
